@@ -9,8 +9,10 @@ use crate::gen::mixed_string;
 use crate::model::{self, ascii_lower, key_ok, lower, type_chars_ok};
 use crate::rng::Rng;
 
-pub const TYPED_KEYS: [&str; 7] =
-    ["repository_url", "download_url", "vcs_url", "file_name", "classifier", "type", "platform"];
+/// Keys of the typed qualifiers used by the workloads; index 7 is a harness-defined type whose
+/// declared KEY is "Mixed_Key.X-1" (valid, not lower-case).
+pub const TYPED_KEYS: [&str; 8] =
+    ["repository_url", "download_url", "vcs_url", "file_name", "classifier", "type", "platform", "mixed_key.x-1"];
 
 #[derive(Clone, Debug, Serialize, Deserialize, PartialEq, Eq, Hash)]
 pub enum CsVal {
@@ -307,6 +309,8 @@ pub fn universe_calls(typed: bool) -> Vec<Call> {
     }
     v.push(Call::Typed(0, None));
     v.push(Call::Typed(4, Some("x".into())));
+    v.push(Call::Typed(7, Some("x".into())));
+    v.push(Call::Typed(7, None));
     if typed {
         for t in model::KNOWN_TYPES {
             v.push(Call::Type(t.to_string()));
@@ -389,7 +393,7 @@ pub fn rand_call(r: &mut Rng, typed: bool) -> Call {
         19..=24 => Call::Qual(rand_key(r), rand_value(r)),
         25..=26 => Call::NoQual(rand_key(r)),
         27 => Call::NoQuals,
-        28..=29 => Call::Typed(r.below(7) as u8, if r.chance(1, 4) { None } else { Some(rand_value(r)) }),
+        28..=29 => Call::Typed(r.below(8) as u8, if r.chance(1, 4) { None } else { Some(rand_value(r)) }),
         30..=32 => Call::Checksum(if r.chance(1, 6) { None } else { Some(rand_cs_entries(r)) }),
         33 => Call::PartsNs(rand_value(r)),
         34 => Call::PartsName(rand_value(r)),
